@@ -289,7 +289,31 @@ func (g *Gen) block(sc *scope, t *Type, depth int) *Block {
 	}
 	var lets []*varInfo
 	for i := 0; i < n; i++ {
-		switch k := g.intn(12, "stmtKind"); {
+		switch k := g.intn(13, "stmtKind"); {
+		case k == 12 && depth > 0 && g.pure == 0 && !g.P.Tinyfo:
+			// a match whose arms have a value, written as a statement: the value is discarded and the
+			// block goes on (cmd/build_sample_md does this with the result of sys.WriteFile)
+			t2 := []*Type{TInt, TString, TBool}[g.intn(3, "discardType")]
+			// (only match: an `if` with valued branches in statement position is emitted as a Go if statement
+			// whose branch values are bare expression statements, which Go rejects unless they are calls -
+			// discarding a value is not a documented feature, so that form is left out)
+			var pre []*Stmt
+			var m *Expr
+			if g.P.StringMatch && g.chance(1, 2, "discardKind") {
+				pre, m = g.matchString(inner, t2, depth-1)
+			} else {
+				pre, m = g.matchUnion(inner, t2, depth-1)
+			}
+			b.Stmts = append(b.Stmts, pre...)
+			if m.K == "matchu" || m.K == "matchs" {
+				b.Stmts = append(b.Stmts, ExprStmt(m))
+				g.label("value of a match discarded in statement position")
+			} else {
+				// the generator fell back to a plain expression (no depth left): bind it instead
+				name := g.fresh("v")
+				b.Stmts = append(b.Stmts, Let(name, m))
+				lets = append(lets, inner.add(name, t2))
+			}
 		case k == 10 && g.P.Buf && depth > 0:
 			st, v := g.bufEpisode(inner, depth-1)
 			b.Stmts = append(b.Stmts, st...)
